@@ -48,6 +48,8 @@ def cases(tier, seed):
             for size in ((2, 3) if tier == 'quick' else (2, 3, 4, 5)):
                 for draw in range(size):
                     out.append({'kind': 'sched', 'scenario': sc, 'grid': [size, 1], 'size': size, 'draw': draw, 'mode': mode, 'bound': 1 if size > 2 else 2, 'cost': 500})
+        for g2, draw in (([1, 2], 0), ([2, 1], 2)) if tier == 'quick' else (([1, 2], 0), ([2, 1], 2), ([1, 2], 1), ([2, 2], 0), ([2, 2], 4), ([1, 3], 2)):
+            out.append({'kind': 'sched', 'scenario': 'S2p', 'grid': g2, 'size': g2[0] * g2[1] + 1, 'draw': draw, 'mode': mode, 'bound': 2 if g2[0] * g2[1] == 2 else 1, 'cost': 400})
         for size in ((3, 4) if tier == 'quick' else (2, 3, 4, 5, 6)):
             out.append({'kind': 'sched', 'scenario': 'S8', 'grid': [size, 1], 'size': size, 'mode': mode, 'bound': 1, 'cost': 700})
         for g9 in ([4, 1], [5, 1]):
@@ -153,6 +155,32 @@ def _scenario(name, case, scratch):
                 g.setLayout(nm)
                 ok = ok and lay.same(g.getAllData(), lay.block(G3, g.getLayout(nm)))
             return ok
+        return fn
+    if name == 'S2p':
+        # layout swapper on a world with a plot-only rank (empty grids, communicator of its own), as setups.py does for the handler
+        lp = {'v_parallel_2d': [0, 2, 1], 'mode_solve': [1, 2, 0]}
+        lv = {'v_parallel_1d': [0, 2, 1]}
+        lpol = {'poloidal': [2, 1, 0]}
+        draw = case['draw']
+        G3 = lay.global_array(shape[:3], np.complex128)
+
+        def fn(r):
+            comm = MPI.COMM_WORLD
+            lc = comm.Split(r == draw, r)
+            mine = r == draw
+            npr = [1, 1] if mine else nprocs
+            s = LayoutSwapper(lc, [lp, lv, lpol], [npr, npr[0], npr[1]], [[], [], []] if mine else eta[:3], 'mode_solve')
+            g = Grid(eta[:3], [None] * 3, s, 'mode_solve', comm, dtype=np.complex128)
+            if not mine:
+                g.getAllData()[:] = lay.block(G3, g.getLayout('mode_solve'))
+            out = []
+            for nm in ('v_parallel_1d', 'poloidal', 'v_parallel_2d', 'mode_solve'):
+                g.setLayout(nm)
+                if not mine:
+                    out.append(bool(lay.same(g.getAllData(), lay.block(G3, g.getLayout(nm)))))
+                blk = g.getBlockFromDict({0: 1}, comm, draw)
+                out.append(None if blk is None else (len(blk[2]), round(float(np.sum(np.abs(blk[3]))), 9)))
+            return out
         return fn
     if name == 'S3':
         def fn(r):
@@ -325,7 +353,7 @@ def _explore_scenario(case):
                 res, w = sim.run_driver(case['grid'], d, 2, 1, 'out', chooser=explore.world_chooser(ch), mode=case['mode'])
                 cps = sim.read_checkpoints(os.path.join(d, 'out'))
                 obs = tuple((k, float(abs(v[0]).sum())) for k, v in sorted(cps.items()))
-            elif name in ('S3p', 'S8'):
+            elif name in ('S3p', 'S8', 'S2p'):
                 fn = _scenario(name, case, d)
                 w = simmpi.World(case['size'], chooser=explore.world_chooser(ch), mode=case['mode'])
                 import io, sys
